@@ -1,9 +1,10 @@
 //! C14 harness: function definitions through brush's real parser, `Display` printer and import path.
 //! Request:  `<esc(source text that defines function f)>`
-//! Response: `D=<ok|err|nofunc|PANIC> P1=<esc> R=<ok|err|nofunc> A=<same|diff|-> P2=<esc|-> I=<ok|err> IA=<same|diff|-> P3=<esc|->`
+//! Response: `D=<ok|err|nofunc|PANIC> P1=<esc> R=<ok|err|nofunc> A=<same|diff|-> P2=<esc|-> X=<esc|-> I=<ok|err> IA=<same|diff|-> P3=<esc|->`
 //!   P1 = `Display` of the stored definition (what `declare -f` / `type` print)
 //!   R/A/P2 = P1 run again in a fresh shell: did it define f, is the AST (locations erased) the same, its print
-//!   I/IA/P3 = `() <body>` (the text `export -f` puts in BASH_FUNC_f%%) through `define_func_from_str`
+//!   X = the value of BASH_FUNC_f%% that `compose_std_command` gives a child process after `export -f f`
+//!   I/IA/P3 = X through `define_func_from_str` (the import path of a child brush)
 use vh::{esc, new_shell, run, unesc};
 
 fn erase(v: &mut serde_json::Value) {
@@ -43,6 +44,23 @@ async fn define(text: &str) -> Result<Option<brush_parser::ast::FunctionDefiniti
     }
 }
 
+/// Defines f, marks it exported, and asks brush-core for the environment of a child process.
+async fn export_text(src: &str) -> Option<String> {
+    let mut shell = new_shell(false, &[]).await;
+    run(&mut shell, src).await.ok()?;
+    run(&mut shell, "export -f f").await.ok()?;
+    let params = shell.default_exec_params();
+    let ctx = brush_core::ExecutionContext { shell: &mut shell, command_name: "true".to_string(), params };
+    let no_args: [&str; 0] = [];
+    let cmd = brush_core::commands::compose_std_command(&ctx, "/bin/true", "true", &no_args, false).ok()?;
+    for (k, v) in cmd.get_envs() {
+        if k.to_str() == Some("BASH_FUNC_f%%") {
+            return v.and_then(|v| v.to_str()).map(|s| s.to_string());
+        }
+    }
+    None
+}
+
 async fn one(src: String) -> String {
     let d1 = match define(&src).await {
         Ok(Some(d)) => d,
@@ -56,8 +74,11 @@ async fn one(src: String) -> String {
         Ok(None) => ("nofunc", "-", "-".to_string()),
         Err(_) => ("err", "-", "-".to_string()),
     };
-    // the export path: `() <body>` is what compose_std_command puts in BASH_FUNC_f%%
-    let body_text = format!("() {}", d1.body);
+    // the export path: the text the real `compose_std_command` puts in BASH_FUNC_f%% for a child process
+    let body_text = match export_text(&src).await {
+        Some(t) => t,
+        None => return format!("D=ok P1={} R={} A={} P2={} X=- I=err IA=- P3=-", esc(&p1), r, a, p2),
+    };
     let mut shell = new_shell(false, &[]).await;
     let (i, ia, p3) = match shell.define_func_from_str("f", &body_text) {
         Ok(()) => match shell.funcs().get("f") {
@@ -69,7 +90,7 @@ async fn one(src: String) -> String {
         },
         Err(_) => ("err", "-", "-".to_string()),
     };
-    format!("D=ok P1={} R={} A={} P2={} I={} IA={} P3={}", esc(&p1), r, a, p2, i, ia, p3)
+    format!("D=ok P1={} R={} A={} P2={} X={} I={} IA={} P3={}", esc(&p1), r, a, p2, esc(&body_text), i, ia, p3)
 }
 
 fn main() {
